@@ -157,8 +157,9 @@ class C18:
         def is_stop_test(n):
             if n.kind != "test":
                 return False
-            txt = ast.unparse(n.ast)
-            top = n.ast.values if isinstance(n.ast, ast.BoolOp) and isinstance(n.ast.op, ast.Or) else [n.ast]
+            from sa.guards import nnf
+            e = nnf(n.ast)          # same truth value, one spelling (De Morgan forms)
+            top = e.values if isinstance(e, ast.BoolOp) and isinstance(e.op, ast.Or) else [e]
             names = {ast.unparse(v) for v in top}
             return "self.__stopping" in names and "self.__shutdown" in names
 
@@ -378,3 +379,28 @@ def run(ctx: Ctx, rep: Report, tier: str):
     c.l9()
     c.l10_l11()
     rep.assume("threading.Thread / Event / queue.Queue behave as documented")
+    from rules.common import start_rechecks_after_join
+    rep.rule("C18.L12", "one loop per service: start() re-checks is_alive() after the grace join before it creates a thread (C15.R4)", 1)
+    start_rechecks_after_join(ctx, rep, "C18.L12")
+    rep.rule("C18.L13", "the time actually waited after a failing step is the backoff value itself: in run(), under `in_backoff > 0` the loop sleeps self.in_backoff, "
+             "otherwise the regular cadence", 2)
+    rf = ctx.prog.cls("Runnable").methods["run"]
+    sleepp = rf.params()[1] if len(rf.params()) > 1 else "sleep"
+    sl = [n for n in ctx.own_nodes(rf) if isinstance(n, ast.Call) and pat.match("self.interruptable_sleep($X)", n) is not None]
+    if not sl:
+        raise AnalysisError("Runnable.run no longer sleeps between steps")
+    seen = set()
+    for c_ in sl:
+        facts = ctx.facts_at(rf, c_)
+        arg = ast.unparse(c_.args[0])
+        if fact_in(facts, "self.in_backoff > 0", True):
+            seen.add("backoff")
+            rep.check("C18.L13", "run|backoff-wait", ctx.line(rf, c_), arg == "self.in_backoff", "waits in_backoff", "in backoff the loop waits `%s`, not the backoff value" % arg)
+        elif fact_in(facts, "self.in_backoff > 0", False):
+            seen.add("cadence")
+            rep.check("C18.L13", "run|regular-wait", ctx.line(rf, c_), arg == sleepp, "waits the regular cadence", "outside backoff the loop waits `%s`, not the cadence `%s`" % (arg, sleepp))
+        else:
+            rep.violation("C18.L13", "run|wait", ctx.line(rf, c_), "the wait `%s` is not selected by `in_backoff > 0`: after a failure the service waits something other than "
+                          "min(max, min*mult^(k-1)) (e.g. the regular cadence when that is larger)" % arg)
+    if seen != {"backoff", "cadence"} and all(i.verdict != "violation" for i in rep.instances if i.rule == "C18.L13"):
+        rep.violation("C18.L13", "run|wait", rf, "run() does not have both waits (backoff value / regular cadence); found %s" % sorted(seen))
